@@ -483,6 +483,15 @@ func enumCoverage(c *core.Ctx, info *types.Info, d *ast.FuncDecl, call *ast.Call
 		if obj == nil || obj.Pkg() == nil {
 			return nil
 		}
+		if obj.Parent() != obj.Pkg().Scope() {
+			// a table built in the function itself: its only definition
+			if r := singleDefRHS(info, d.Body, id); r != ast.Expr(id) {
+				if cl, ok := ast.Unparen(r).(*ast.CompositeLit); ok {
+					return cl
+				}
+			}
+			return nil
+		}
 		var lit *ast.CompositeLit
 		n := 0
 		if p := c.PkgOf(obj.Pkg()); p != nil {
@@ -508,6 +517,42 @@ func enumCoverage(c *core.Ctx, info *types.Info, d *ast.FuncDecl, call *ast.Call
 			return nil
 		}
 		return lit
+	}
+	// (d) `v, ok := table[k]; if !ok { abort }`
+	if blk, ok := parent[st].(*ast.BlockStmt); ok {
+		if ifs, ok := parent[blk].(*ast.IfStmt); ok && ifs.Body == blk {
+			if u, ok := ast.Unparen(ifs.Cond).(*ast.UnaryExpr); ok && u.Op == token.NOT {
+				if okObj := identObj(info, u.X); okObj != nil {
+					var found *ast.IndexExpr
+					ast.Inspect(d.Body, func(m ast.Node) bool {
+						if as, isAs := m.(*ast.AssignStmt); isAs && len(as.Lhs) == 2 && len(as.Rhs) == 1 && identObj(info, as.Lhs[1]) == okObj {
+							if ix, isIx := ast.Unparen(as.Rhs[0]).(*ast.IndexExpr); isIx {
+								found = ix
+							}
+						}
+						return true
+					})
+					if found != nil {
+						if lit, nt := tableLit(found.X), enumOf(found.Index); lit != nil && nt != nil {
+							litInfo := info
+							if id, isId := ast.Unparen(found.X).(*ast.Ident); isId {
+								if p := c.PkgOf(info.ObjectOf(id).Pkg()); p != nil {
+									litInfo = p.TypesInfo
+								}
+							}
+							for _, el := range lit.Elts {
+								if kv, isKV := el.(*ast.KeyValueExpr); isKV {
+									if tv, ok := litInfo.Types[kv.Key]; ok && tv.Value != nil {
+										covered[tv.Value.ExactString()] = true
+									}
+								}
+							}
+							return nt, covered, true
+						}
+					}
+				}
+			}
+		}
 	}
 	for i, s := range list {
 		if ast.Node(s) != st {
